@@ -141,7 +141,7 @@ def gen_uc(rng):
         unit = 'scaled'
     w1, w2 = _gen_cfgs(rng)
     return {'kind': 'uc', 'via': rng.choice(['tree', 'json', 'xml']), 'w1': w1, 'w2': w2, 'unit': unit, 'arr': arr,
-            'form': rng.choice(['ndarray', 'ndarray', 'python'])}
+            'form': rng.choice(['ndarray', 'ndarray', 'python', 'fview'])}
 
 
 def gen_box(rng):
@@ -277,12 +277,31 @@ def _units_of(case):
     return us
 
 
+def own_factor(u):
+    """factor of the unit expression `u` under the *current* working units, evaluated here over the live
+    numericalunits attributes (names, numbers, `^` first, then `*` `/` left to right: the grammar of the
+    parenthesis-free expressions in UNITS) - independent of uc.parse / uc.unit, so a stale or cached factor
+    inside atomman cannot hide behind the harness measuring factors with the same function."""
+    import re
+    import numericalunits as nu
+    toks = re.findall(r'[A-Za-z_][A-Za-z_0-9]*|-?[0-9.]+|[*/^]', u)
+    if ''.join(toks) != u.replace(' ', ''):
+        raise ValueError(f'unit expression outside the harness grammar: {u!r}')
+    terms = [t if t in '*/^' else (float(getattr(nu, t)) if t[0].isalpha() or t[0] == '_' else float(t)) for t in toks]
+    while '^' in terms:
+        c = terms.index('^')
+        terms[c - 1:c + 2] = [terms[c - 1] ** terms[c + 1]]
+    val = terms[0]
+    for op, x in zip(terms[1::2], terms[2::2]):
+        val = val * x if op == '*' else val / x
+    return val
+
+
 def _factors(case):
-    uc = _uc()
     out = {}
     for u in _units_of(case):
         if u is not None and u != 'scaled':
-            out[u] = float(uc.parse(u))
+            out[u] = own_factor(u)
     return out
 
 
@@ -317,6 +336,7 @@ class RealRun:
 def run_real(case) -> RealRun:
     """write under configuration w1, encode, read under w2.  Leaves w2 active: callers restore."""
     import atomman as am
+    import numpy as np
     uc = _uc()
     r = RealRun()
     k, via = case['kind'], case['via']
@@ -328,6 +348,8 @@ def run_real(case) -> RealRun:
             value = _nparr(case['arr'])
             if case.get('form') == 'python':        # the documented array-like input: scalars / nested lists
                 value = value.tolist()
+            elif case.get('form') == 'fview' and value.ndim >= 2:   # same array, column-major memory
+                value = np.asfortranarray(value)
             model = uc.model(value, case['unit'])
         elif k == 'box':
             model = _mk_box(case['box']).model(length_unit=case['unit'])
